@@ -27,6 +27,10 @@ def run(run, replay=None):
     paths = _rcommon.legal_paths(run, 7 if quick else 9)
     cases = []
     n = 0
+    for data in fgen.probe_files():          # edge cases first (state carried between parses)
+        cases.append(rdriver.case(n, 'exact', data, cat))
+        run.count(('probe', data), nontrivial=True)
+        n += 1
     reps = 2 if quick else 12
     for ids in paths:
         for _ in range(reps):
